@@ -57,7 +57,9 @@ static void run_config(const Config & c, uint64_t seed, long n_iid, int n_grid)
   vf_seteta_(nme);
   int rier = 0;
   tape.rewind();
+  ref_state().clamp_acted = 0;
   bool ref_ok = ref_genbbsub(1, c.name, c.level, c.mode, -1, rier);
+  const long clamp_acted_at_init = ref_state().clamp_acted; // sub-50-eV arguments while the reference built its tables
   size_t rd0 = tape.pos;
   double re1, re2, rtoall;
   int rlevelE;
@@ -202,7 +204,8 @@ static void run_config(const Config & c, uint64_t seed, long n_iid, int n_grid)
     uint64_t stream = (hash_str(lab) & 0xffffff) << 24;
     uint64_t last_sig = 0;
     size_t last_draws = 0;
-    int probes = 0;
+    int probes = 0, probe_confirmed = 0, probe_refuted = 0;
+    long unprobed_attributed = 0;
     auto one = [&](const std::string & steer) {
       last_sig = 0;
       last_draws = 0;
@@ -211,7 +214,9 @@ static void run_config(const Config & c, uint64_t seed, long n_iid, int n_grid)
       tape.rewind();
       vf_clearevent_();
       int ier = 0;
+      ref_state().clamp_acted = 0;
       bool rok = ref_genbbsub(1, c.name, c.level, c.mode, 1, ier);
+      const long clamp_acted = ref_state().clamp_acted; // sub-50-eV arguments the reference's fermi() saw while making this event
       size_t rd = tape.pos;
       re.fetch();
       tape.rewind();
@@ -266,7 +271,7 @@ static void run_config(const Config & c, uint64_t seed, long n_iid, int n_grid)
               && ekin(q1) < 50.e-6 && std::fabs(re.ekin(1) - 50.e-6) < 1e-12)
             clamp = true;
         }
-        if (!clamp && ref_state().port_fermi) {
+        if (!clamp && ref_state().port_fermi && (clamp_acted > 0 || clamp_acted_at_init > 0)) {
           // root-cause probe: the same in-place clamp also acts inside the rejection loops (fe1_modN / fe2_modN see 50 eV instead of
           // the sampled sub-50-eV energy after their first fermi() call), so a deviate steered exactly onto an accept/reject boundary
           // can flip the decision.  Replay the reference on the same tape with the side effect switched off in the shim: if it then
@@ -286,7 +291,18 @@ static void run_config(const Config & c, uint64_t seed, long n_iid, int n_grid)
           int ier2 = 0;
           size_t rd2 = 0;
           RefEvent re2;
-          if (probes++ < 50) {
+          // (two re-initialisations of the reference per probe: many for the modes whose tables are cheap - the pass of the deep steering
+          // that is guided by the number of deviates lands on hundreds of such boundaries per configuration - few for the quadrature modes)
+          const bool cheap_tables = !(c.mode == 4 || c.mode == 5 || c.mode == 6 || c.mode == 8 || c.mode == 13 || c.mode == 14 || c.mode == 15 || c.mode == 16 || c.mode == 19);
+          const int cap = cheap_tables ? 5000 : 600;
+          if (probes >= cap && probe_confirmed >= cap && probe_refuted == 0) {
+            // budget spent, every one of the probes of this configuration confirmed the recorded root cause and none refuted it, and the
+            // in-place clamp did act while the reference made this event: attributed without a replay (a defect of another kind would
+            // also show in the events in which no sub-50-eV argument occurs - the vast majority - and is not attributed there)
+            clamp = true;
+            unprobed_attributed++;
+          }
+          if (probes++ < cap) {
             ref_state().inplace_clamp = false;
             reinit();
             tape.rewind();
@@ -304,7 +320,12 @@ static void run_config(const Config & c, uint64_t seed, long n_iid, int n_grid)
               if ((re.code[i] == 2 || re.code[i] == 3) && re.ekin(i) <= 50.e-6 * (1 + 1e-9)) sub50 = true;
             for (size_t i = 0; i < pe.get_particles().size() && i < 2; i++)
               if (ekin(pe.get_particles()[i]) <= 50.e-6) sub50 = true;
-            if (cr2.same && sub50) clamp = true;
+            if (cr2.same && sub50) {
+              clamp = true;
+              probe_confirmed++;
+            } else {
+              probe_refuted++;
+            }
           }
         }
         if (clamp) rec(st.mm, "dbd|lepton-below-50eV-clamped-in-reference", lab + ": " + cr.detail);
